@@ -136,6 +136,15 @@ Definition ctl_ok (s : st) : bool :=
       | CWaitBlock _ | CWaitDone _ _ _ =>
           busy s && negb (watch s) && negb (usecb s) && (stopped s || pst_eqb (pst s) PStreaming)
       end
+  | HFail =>
+      (* busy was released by the failing handler; whoever holds it now acquired it afterwards *)
+      negb (watch s) && pst_eqb (pst s) PStreaming &&
+      match pc s with
+      | CIdle | CLock _ => negb (busy s)
+      | CRet c r => negb (busy s) && (match c, r with GetRange _ _, ROk => true | _, _ => negb (busy s) end)
+      | CSend c | CWaitStart c => busy s && Bool.eqb (usecb s) (is_range c)
+      | _ => false
+      end
   | HDead =>
       stopped s &&
       match pc s with
@@ -224,7 +233,7 @@ Proof.
   unfold pending in HP; cbn in HP.
   destruct pc0 as [|c|c|c|p|p b e|c r]; [destruct todo0 as [|c t]; [discriminate|]; try_l (LCall c)|..];
   destruct hp0; rdc in HI; split_and; try discriminate; bools; try discriminate;
-  first [ try_l LAcquire | try_l LRecvExit | try_l LSendFail | try_l LRvStart | try_l LRvNoBlocks
+  first [ try_l LHandlerErr | try_l LAcquire | try_l LQueue | try_l LRecvExit | try_l LSendFail | try_l LRvStart | try_l LRvNoBlocks
         | try_l LRvBlock | try_l LRvDone | try_l LDoneCase | try_l LWatch | try_l LCbDone
         | match goal with |- context[HCbBlock ?b] => try_l (LCbBlock b) end
         | match goal with |- context[CSend ?c] => try_l (LWire c) end
@@ -237,7 +246,7 @@ Qed.
 Definition wc (c : cpc) : nat :=
   match c with CIdle => 0 | CRet _ _ => 1 | CWaitDone _ _ _ => 2 | CWaitBlock _ => 3 | CWaitStart _ => 4
              | CSend _ => 5 | CLock _ => 6 end.
-Definition wh (h : hpc) : nat := match h with HDead => 0 | HIdle => 1 | _ => 2 end.
+Definition wh (h : hpc) : nat := match h with HDead => 0 | HIdle => 1 | _ => 2 end.  (* HFail: 2 *)
 Definition mu (s : st) : nat :=
   10 * length (todo s) + wc (pc s) + 3 * length (srv s) + wh (hp s)
   + (if watch s then 1 else 0) + (if stopped s then 0 else 1).
